@@ -6,6 +6,7 @@ import gens_split as G
 import splitcommon as SC
 from props import c01_blank
 from props import c01_selfref
+from props import c01_hang
 
 ENGINE = "split"
 RULE = ("streams: T = all token sequences over the 14-token splitter alphabet up to length 4 (quick) / 5 (thorough) plus random "
@@ -32,13 +33,23 @@ RULE = ("streams: T = all token sequences over the 14-token splitter alphabet up
         "2, 3 and 4 times under one or two alternating formats; separator / indent / VAL_SEP / template and the library's reserved "
         "words in every slot of a document (oracle on every parse and every write of every cycle: nothing raises, a Library / a str "
         "comes back, every failed block has an error and a raw text that occurs in the text parsed, no block is lost; model "
-        "comparison on the rendered text: splitter for W, composed pipeline for P-W; W-inc oracle only). distinct = distinct text; "
+        "comparison on the rendered text: splitter for W, composed pipeline for P-W; W-inc oracle only). H / P-H = RUNNING TIME IS "
+        "PART OF 'ALWAYS RETURNS' (props/c01_hang.py): small texts on which a backtracking pattern or a rescanning loop explodes: "
+        "prefix that leaves something open (unterminated braced / quoted / nested value, entry head, @string head, @preamble{, "
+        "@comment{, free text, nothing) x a mid-line token not closed on its line (`@w{` `@w(` `@w {` `{` `\"` `=` `#` `,` backslash "
+        "`@` ...) x a run of n = 8..512 characters of one class on the same line (letters, digits, blanks, tabs, commas, `=`, `@`, "
+        "`#`, backslashes, quotes, mixed, ...) x tail (end of input | newline and a well-formed block | a closing brace lines "
+        "away | on the same line); the whole evaluation of a case runs under a limit of CPU time of the child process and a case "
+        "that uses it up while a well-formed document of the same length is through in a twentieth of it is a violation with that "
+        "text; the ordinary oracle and model comparison (splitter for H, composed pipeline for P-H) apply, plus: a text without "
+        "any `}` whose prefix opens a block yields failed blocks and nothing complete, raw texts occur in the text. distinct = distinct text; "
         "non-trivial = at least one failed block or >= 2 blocks")
 TRUSTED = ["oracle instance: str.lower restricted to ASCII for the @type text (others skipped for the model comparison, still run "
            "through parse_string/write_string for the no-raise oracle)",
            "memory exhaustion and interpreter stack depth are environment limits observed only by stream S"]
 ASSUMPTIONS = ["CPython's Unicode predicates (isspace, \\w) enter the model as per-character flags",
-               "termination of the model is by structural recursion; hangs of the Python are caught by the per-case timeout"]
+               "termination of the model is by structural recursion; hangs of the Python are caught by the per-case timeout "
+               "(wall clock, harness) and, on stream H / P-H, by a CPU-time limit of the child process (ITIMER_PROF) inside the case"]
 CASE_TIMEOUT_S = 120
 
 
@@ -97,6 +108,8 @@ def generate(rng, tier):
     cases.extend(c01_blank.generate(rng, tier))
     # W / P-W / W-inc: the library's own artefacts as input (props/c01_selfref.py)
     cases.extend(c01_selfref.generate(rng, tier))
+    # H / P-H: small texts on which a backtracking pattern or a rescanning loop explodes (props/c01_hang.py)
+    cases.extend(c01_hang.generate(rng, tier))
     return cases
 
 
@@ -251,6 +264,13 @@ _RX = None
 
 
 def impl(case):
+    if case["input"].get("hang") is not None:
+        # "always returns": the ordinary evaluation below, under a limit of CPU time of this process (props/c01_hang.py)
+        return c01_hang.run(case, _impl)
+    return _impl(case)
+
+
+def _impl(case):
     import enc, implutil, bibtexparser
     global _RX
     text = case["input"]["text"]
@@ -293,6 +313,9 @@ def impl(case):
                 "key": "inc:" + "\x1e".join(texts)[:300], "tags": ["incremental"], "summary": repr(outs[-1:])[:160]}
     blank = case["input"].get("blank")
     btags = ["blank:slot=" + blank[0], "blank:form=" + blank[1], "blank:wrap=" + blank[2], "blank:class=" + blank[3]] if blank else []
+    hang = case["input"].get("hang")
+    if hang is not None:
+        btags = btags + c01_hang.tags(hang)
     if case["input"].get("pipe"):
         w = implutil.guarded(lambda: bibtexparser.write_string(bibtexparser.parse_string(text)))
         rec = {"sx_in": [151, enc.enc_str(text)], "key": "pipe:" + (text if len(text) < 200 else str(hash(text))),
@@ -320,7 +343,7 @@ def impl(case):
         if not ok and "input of this cycle" not in detail:
             detail += " on the text " + c01_selfref._show(text)
     else:
-        ok, detail = plain_oracle(text, r, blank)
+        ok, detail = plain_oracle(text, r, blank, hang)
     rec["oracle"] = {"ok": ok, "detail": detail}
     kinds = SC.block_kinds(r[1]) if r[0] == "ok" else ["exc"]
     rec["nontrivial"] = len(kinds) >= 2 or "ParsingFailedBlock" in kinds
@@ -329,7 +352,7 @@ def impl(case):
     return rec
 
 
-def plain_oracle(text, r, blank):
+def plain_oracle(text, r, blank, hang=None):
     """the property itself on one text: default parse stack, then default write.  `r` = the guarded parse with the empty stack"""
     import implutil, bibtexparser
 
@@ -356,6 +379,10 @@ def plain_oracle(text, r, blank):
             ok, detail = False, "default stack changed the number of blocks: %d -> %d" % (len(r[1].blocks), len(lib.blocks))
         if ok and blank:
             ok, detail = other_stacks(text, lib, r[1])
+        if ok and hang is not None:
+            ok, detail = c01_hang.surfaces(text, hang, lib)
+            if not ok:
+                detail += " on the text " + c01_hang._show(text)
     return ok, detail
 
 
@@ -378,4 +405,8 @@ def other_stacks(text, lib, lib0):
 def shrink(case):
     if case["input"].get("texts") is not None or case["input"].get("self") is not None:
         return iter(())                                  # a recipe, not a text: the case is reported as generated
+    if case["input"].get("hang") is not None:
+        # candidates stay under the CPU-time limit (a shortened text may be the one that does not return); the description of
+        # the generated text does not apply to them any more
+        return SC.shrink_text(dict(case, input=dict(case["input"], hang={"shrunk": 1})))
     return SC.shrink_text(case)
